@@ -15,6 +15,7 @@ func main() {
 	out := flag.String("out", "", "ndjson trace output for -mode tv")
 	layout := flag.String("layout", "PI", "index layout for -mode tv / repro")
 	runs := flag.Int("runs", 4, "number of runs for -mode tv")
+	gated := flag.Int("gated", 1, "number of runs with transactions indexed during the compaction dump for -mode tv")
 	classes := flag.Int("classes", 2, "configuration classes per behaviour for -mode rp")
 	flag.Parse()
 	if *dir == "" {
@@ -26,7 +27,7 @@ func main() {
 	case "rp":
 		runRP(*in, *seed, *dir, *classes, res)
 	case "tv":
-		runTV(*layout, *seed, *runs, *dir, *out, res)
+		runTV(*layout, *seed, *runs, *gated, *dir, *out, res)
 	case "dbg":
 		debugBetween(*in, *seed, *dir)
 		return
